@@ -536,6 +536,76 @@ m("C02","remove-proven-prover","x/storage/keeper/rewards.go",
 m("C02","burn-in-first-window","x/storage/keeper/rewards.go",
   'if !proven && !file.IsYoung(currentHeight) { // if file wasn\'t proven, and is old, we burn it.','if !proven { // if file wasn\'t proven, and is old, we burn it.',"C02/R3","rewards:burn-only-on-miss")
 
+# ---- C06
+m("C06","providerlist-unsorted","x/storage/keeper/rewards.go",
+  '	slices.Sort(provers)\n	return provers','	_ = slices.Sort[[]string]\n	return provers',"C06/R2","providerList:map-range")
+m("C06","pay-inside-map-range","x/storage/keeper/rewards.go",
+  """	provers := providerList(sizeTracker)
+	for _, prover := range provers { // loop through a sorted list of providers
+		worth := (*sizeTracker)[prover]""","""	_ = providerList
+	for prover, worth := range *sizeTracker { // loop through a sorted list of providers""","C06/R2","rewardAllProviders:map-range")
+m("C06","rng-seed-removed","x/storage/types/file_deal.go",
+  """		r := rand.NewRand()
+		r.Seed(gs + h)
+		newChunk = r.Int63n(pieces)
+	}
+
+	proof.ChunkToProve = newChunk
+
+	return nil
+}""","""		r := rand.NewRand()
+		_ = gs + h
+		newChunk = r.Int63n(pieces)
+	}
+
+	proof.ChunkToProve = newChunk
+
+	return nil
+}""","C06/R3","rng-unseeded")
+m("C06","rng-seed-on-one-branch","x/storage/keeper/providers.go",
+  """	providers = allowedProviders
+
+	size := len(providers)
+
+	rounds := Rounds * size
+
+	i64Size := int64(size)
+
+	r := rand.NewRand() // creating a new random generator to ensure no interference
+
+	r.Seed(ctx.BlockHeight())
+""","""	providers = allowedProviders
+
+	size := len(providers)
+
+	rounds := Rounds * size
+
+	i64Size := int64(size)
+
+	r := rand.NewRand() // creating a new random generator to ensure no interference
+
+	if size > 3 {
+		r.Seed(ctx.BlockHeight())
+	}
+""","C06/R3","GetActiveProviders:rng-unseeded")
+m("C06","global-rand-draw","x/storage/keeper/msg_server_attest.go",
+  'rand.Seed(ctx.BlockHeight())','rand.Seed(ctx.BlockHeight())\n	_ = rand.Int63n(10)',"C06/R1","global-rand")
+m("C06","acl-json-by-ranging-map","x/filetree/keeper/msg_server_add_viewers.go",
+  """	vaccbytes, err := json.Marshal(jvacc)
+	if err != nil {
+		return nil, types.ErrCantMarshall
+	}
+	newviewers := string(vaccbytes)""","""	newviewers := ""
+	for kk, vv := range jvacc {
+		newviewers += strings.Join([]string{kk, vv}, "=")
+	}""","C06/R2","AddViewers:map-range")
+m("C06","float-into-state","x/storage/keeper/msg_server_buy_storage.go",
+  'fmt.Printf("POL: %d / %f\\n", params.PolRatio, pol.MustFloat64())','pf := pol.MustFloat64()\n	bytes = int64(float64(bytes) * (1 + pf - pf))',"C06/R4","BuyStorage:float-flow")
+m("C06","plan-start-from-wallclock","x/storage/keeper/msg_server_buy_storage.go",
+  'Start:          ctx.BlockTime(),','Start:          time.Now(),',"C06/R1","time.Now")
+m("C06","goroutine-in-handler","x/oracle/keeper/msg_server_feeds.go",
+  '	k.SetFeed(ctx, feed)\n\n	return &types.MsgUpdateFeedResponse{}, nil','	go k.SetFeed(ctx, feed)\n\n	return &types.MsgUpdateFeedResponse{}, nil',"C06/R1","go-statement")
+
 for x in M:
     d = os.path.join(os.path.dirname(os.path.abspath(__file__)), x["property"])
     os.makedirs(d, exist_ok=True)
